@@ -93,20 +93,24 @@ Proof. vm_compute. repeat split. Qed.
 (* star-free chain: e imports {x, ns, q} from a; a re-exports x from b as x, b re-exports y from c as x,
    c defines y; a also has "export * as ns from c" and nothing named q *)
 Definition ex_chain : graph :=
-  [ empty_module;
+  [ esm_mod [] [] [] [] false;
     esm_mod [rec_to 2; rec_to 2; rec_to 2] [imp 1 1 0; imp 2 5 1; imp 3 6 2] [] [] true;
     esm_mod [rec_to 3; rec_to 4] [imp 7 1 0; mkImp 8 0 true 1 None false true] [(1, 7%nat); (5, 8%nat)] [] false;
     esm_mod [rec_to 4] [imp 7 2 0] [(1, 7%nat)] [] false;
     esm_mod [] [] [(2, 0%nat)] [] false ].
 Definition ex_chain_rank : list nat := [0; 9; 3; 2; 1]%nat.
-Example ex_chain_scope : chain_scope ex_chain ex_chain_rank = true.
-Proof. vm_compute. reflexivity. Qed.
+Example ex_chain_scope : chain_scope ex_chain ex_chain_rank = true /\ esm_graph ex_chain = true.
+Proof. vm_compute. split; reflexivity. Qed.
 Example ex_chain_verdicts :
-  let kinds := fun _ : nat => EESM in
-  map (fun ni => option_map (fun p => mres_verdict (fst p) (snd p))
-                   (match_import ex_chain kinds (resolved_of ex_chain kinds) true (1%nat, ni_ref ni)))
-      (m_imports (getm ex_chain 1))
+  map (link_verdict ex_chain (seq 0 5) 1) (m_imports (getm ex_chain 1))
   = [Some (VFound 4 0); Some (VFound 4 99); Some VNull]
   /\ map (spec_verdict ex_chain 1) (m_imports (getm ex_chain 1))
   = [Some (VFound 4 0); Some (VFound 4 99); Some VNull].
 Proof. vm_compute. split; reflexivity. Qed.
+
+(* entry_sorts_first: the keys of ex_graph meet the hypotheses *)
+Example ex_keys_entry : In (0, 4, 1%nat) ex_keys /\ (forall k, In k ex_keys -> k = (0, 4, 1%nat) \/ 0 < kdist k).
+Proof.
+  split; [right; left; reflexivity|].
+  intros k [<-|[<-|[<-|[<-|[]]]]]; cbn; auto; right; lia.
+Qed.
